@@ -949,7 +949,9 @@ pub fn fab_probes(prop: &str, seed: u64, n: usize, rep: &mut Report) {
             Sym::Match { d: (dict as u64).max(produced) + 1, n: 3 },
             Sym::Match { d: 0xFFFF_FFF0, n: 2 },
         ];
-        let tail = vec![Sym::Lit { b: b'a' }, Sym::Lit { b: b'b' }];
+        // either the stream ends with the copy (a literal after it would read its match byte at the same bad
+        // distance and is dropped by enc_fab), or a legal match replaces rep0 first and the stream goes on
+        let tail = if i % 2 == 0 { vec![Sym::Lit { b: b'a' }, Sym::Lit { b: b'b' }] } else { vec![Sym::Match { d: 1, n: 2 }, Sym::Lit { b: b'a' }, Sym::Lit { b: b'b' }] };
         for bad in bads {
             // ---- circular window: raw decoder (exact dict), one-shot and stream (header dict) ----
             for (api_name, marker) in [("raw", true), ("raw", false), ("oneshot", true), ("stream", false)] {
@@ -1053,6 +1055,96 @@ pub fn fab_probes(prop: &str, seed: u64, n: usize, rep: &mut Report) {
                         json!({"kind": "bytes", "api": api_name, "data_hex": hex(&stream), "expect": "err"}));
                 }
             }
+        }
+    }
+    // ---- circular window, raw decoder object used twice WITHOUT reset: the repeat distances, state and
+    // probabilities of the first stream are still there, the window is new.  A repeat copy whose (carried)
+    // distance exceeds what the second call has produced must be refused.  Judged only through what cannot be
+    // explained otherwise: success delivering exactly the bytes fabrication would give.
+    for i in 0..n {
+        use lzma_rs::decompress::raw::{LzmaDecoder, LzmaParams, LzmaProperties};
+        let p = Props { lc: [3, 0, 2][i % 3], lp: [0, 2, 0][i % 3], pb: [2, 0, 1][i % 3] };
+        let mut cs = CS::default();
+        let mut probs = Probs::default();
+        let mut enc = RangeEnc::new();
+        let mut warm: Vec<Sym> = random_walk(&mut rng, &WalkCfg { nsyms: 12 + i % 20, props: p, max_dist: 64, lit_alphabet: 9 });
+        warm.push(Sym::Lit { b: 7 });
+        for s in &warm {
+            let d = cs.decisions(s, p);
+            encode_decs(&mut enc, &mut probs, &d);
+            cs.apply(s);
+        }
+        // leave distinct, large distances in the repeat registers and end in a literal
+        let l0 = cs.out.len() as u64;
+        for (k, dd) in [l0, l0 / 2 + 1, l0 / 3 + 1, l0 - 1].iter().enumerate() {
+            let sy = Sym::Match { d: (*dd).max(1), n: 2 + k as u32 };
+            if cs.valid(&sy) {
+                let d = cs.decisions(&sy, p);
+                encode_decs(&mut enc, &mut probs, &d);
+                cs.apply(&sy);
+            }
+        }
+        let sy = Sym::Lit { b: 3 };
+        let d = cs.decisions(&sy, p);
+        encode_decs(&mut enc, &mut probs, &d);
+        cs.apply(&sy);
+        let warm_payload = enc.finish();
+        let warm_len = cs.out.len() as u64;
+        let k = i % 3; // literals produced by the second call before the bad repeat
+        let bad = match i % 5 {
+            0 => Sym::Short,
+            r => Sym::Rep { r: (r - 1) as u8, n: 2 + (i as u32 % 5) },
+        };
+        let mut cs2 = cs.clone();
+        cs2.out.clear();
+        let mut probs2 = probs.clone();
+        let prefix2: Vec<Sym> = (0..k).map(|j| Sym::Lit { b: 0x51 + j as u8 }).collect();
+        // validity of the bad symbol in the second call's (empty) window
+        let dist = match bad {
+            Sym::Short => cs2.rep[0] + 1,
+            Sym::Rep { r, .. } => cs2.rep[r as usize] + 1,
+            _ => 0,
+        };
+        if dist <= k as u64 {
+            continue;
+        }
+        // the object keeps its declared size: the second stream must produce exactly as many bytes to end well
+        let nbad = match bad {
+            Sym::Rep { n, .. } => n as u64,
+            _ => 1,
+        };
+        if warm_len < k as u64 + nbad + 2 {
+            continue;
+        }
+        // a literal right after the copy would read its match byte at the same bad distance: continue with a
+        // legal new-distance match, which replaces rep0, then literals up to the declared size
+        let mut tail2: Vec<Sym> = vec![Sym::Match { d: 1, n: 2 }];
+        tail2.extend((0..(warm_len - k as u64 - nbad - 2)).map(|j| Sym::Lit { b: b'a' + (j % 20) as u8 }));
+        let (payload2, total2, _valid) = enc_fab(&mut cs2, &mut probs2, p, &prefix2, bad, &tail2);
+        let fabricated = cs2.out.clone();
+        let r = crate::io::catch(|| {
+            let mut d = LzmaDecoder::new(LzmaParams::new(LzmaProperties { lc: p.lc, lp: p.lp, pb: p.pb }, 4096, Some(warm_len)), None).unwrap();
+            let mut sink = vec![];
+            let first_ok = d.decompress(&mut &warm_payload[..], &mut sink).is_ok();
+            // no reset: decompress() twice on the same object
+            let mut out = vec![];
+            let res = d.decompress(&mut &payload2[..], &mut out);
+            if std::env::var("LZVERIF_DEBUG").is_ok() {
+                eprintln!("carried: first_ok={} res={:?} out={:?} fabricated={:?} bad={:?} k={} dist={}", first_ok, res, out, fabricated, bad, k, dist);
+            }
+            (first_ok && res.is_ok(), out)
+        });
+        rep.eval(hash_of(&(hex(&payload2), "raw-carried", i)), true);
+        rep.count("fab_probe_carried");
+        let _ = total2;
+        match r {
+            crate::io::Caught::Panic(m) => rep.violation(prop, format!("raw decoder used twice: panic {}", m), json!({"kind": "bytes", "api": "raw-carried", "data_hex": hex(&payload2), "expect": "err"})),
+            crate::io::Caught::Done((true, out)) if out == fabricated && !out.is_empty() => {
+                rep.violation(prop, format!("raw decoder used twice without reset: a repeat copy with carried distance {} was accepted after only {} bytes of output; {} fabricated bytes delivered", dist, k, out.len()),
+                    json!({"kind": "bytes", "api": "raw-carried", "data_hex": hex(&payload2), "expect": "err"}));
+            }
+            crate::io::Caught::Done((true, _)) => rep.count("fab_probe_carried_other_ok"),
+            crate::io::Caught::Done((false, _)) => rep.count("fab_probe_carried_refused"),
         }
     }
     if rep.samples.len() < 8 {
